@@ -91,6 +91,17 @@ Definition num_ncdf := num_un ncdf dncdf d2ncdf.
 Definition num_nicdf := num_un nicdf dnicdf d2nicdf.
 Definition num_abs := num_un nabs dabs d2abs.
 Definition num_signum := num_un nsignum dsignum d2signum.
+(* Signed::abs_sub for Number signed.rs:101-121: the nine-arm table; a float operand next to a dual one is
+   promoted to a variable-free number of that kind (a fresh Arc: never shared) *)
+Definition num_abs_sub := num_bin fabs_sub
+  (fun f d => dabs_sub false (dual_new f []) d) (fun d f => dabs_sub false d (dual_new f []))
+  dabs_sub
+  (fun f d => d2abs_sub false (dual2_new f []) d) (fun d f => d2abs_sub false d (dual2_new f []))
+  d2abs_sub.
+(* From<f64> / From<&f64> / From<Dual> / From<&Dual> / From<Dual2> / From<&Dual2> for Number from.rs:151-185 *)
+Definition num_of_f (f : T) : number := NF f.
+Definition num_of_dual (d : dual T) : number := ND d.
+Definition num_of_dual2 (d : dual2 T) : number := ND2 d.
 Definition num_zero : number := NF n0.
 Definition num_one : number := NF n1.
 (* Sum for Number: fold from F64(0.0) with + *)
